@@ -23,107 +23,90 @@ theorem init_winv (dim M efC efS : Nat) : WInv (HNSW.init dim M efC efS : State 
 section
 variable (m : Metric V S)
 
-theorem add_winv (s s' : State V) (x : Id) (v : V) (level : Nat) (pick : Id) (e : Option Err)
-    (hinv : WInv s) (hfresh : s.nodes.contains x = false)
-    (h : add m s x v level pick = .ok (s', e)) :
+theorem addLinked_winv (s s' : State V) (x : Id) (v' : V) (level : Nat)
+    (hinv : WInv s) (h : addLinked m true s x v' level = .ok s') :
     WInv s' ∧ s'.dim = s.dim ∧
     (∀ j, s'.nodes.contains j = true → s.nodes.contains j = true ∨ j = x) ∧
-    (s.nodes.count ≠ 0 → s'.entry = s.entry) ∧
     (∀ j, isDeleted s' j = isDeleted s j) := by
-  have hxdel : s.deleted.contains x = false := by
-    cases hc : s.deleted.contains x with
-    | false => rfl
-    | true => have := hinv.del_res x hc; rw [hfresh] at this; cases this
-  simp only [add, addWith, registerFirst, hxdel, Bool.and_false, Bool.false_eq_true, if_false,
-    if_true] at h
+  simp only [addLinked, if_true] at h
+  generalize hs0 : (if (level : Int) > s.maxLevel then { s with maxLevel := (level : Int) } else s) = s0 at h
+  have hs0n : s0.nodes = s.nodes := by rw [← hs0]; split <;> rfl
+  have hs0d : s0.deleted = s.deleted := by rw [← hs0]; split <;> rfl
+  have hs0e : s0.entry = s.entry := by rw [← hs0]; split <;> rfl
+  have hs0dim : s0.dim = s.dim := by rw [← hs0]; split <;> rfl
+  have hs0ml : (level : Int) ≤ s0.maxLevel ∧ s.maxLevel ≤ s0.maxLevel := by
+    rw [← hs0]; split <;> simp <;> omega
+  have hlvl : (0 : Int) ≤ s0.maxLevel := by have := hs0ml.1; omega
+  have hresS : ∀ j, s0.nodes.contains j = s.nodes.contains j := by intro j; rw [hs0n]
+  have hdelS : ∀ j, isDeleted s0 j = isDeleted s j := by intro j; simp [isDeleted, hs0d]
   split at h
-  · simp only [Except.ok.injEq, Prod.mk.injEq] at h
-    obtain ⟨rfl, rfl⟩ := h
-    exact ⟨hinv, rfl, fun j hj => Or.inl hj, fun _ => rfl, fun _ => rfl⟩
-  · split at h
-    · simp only [Except.ok.injEq, Prod.mk.injEq] at h
-      obtain ⟨rfl, rfl⟩ := h
-      exact ⟨hinv, rfl, fun j hj => Or.inl hj, fun _ => rfl, fun _ => rfl⟩
-    · next v' hpre =>
-      generalize hs0 : (if (level : Int) > s.maxLevel then { s with maxLevel := (level : Int) } else s) = s0 at h
-      have hs0n : s0.nodes = s.nodes := by rw [← hs0]; split <;> rfl
-      have hs0d : s0.deleted = s.deleted := by rw [← hs0]; split <;> rfl
-      have hs0e : s0.entry = s.entry := by rw [← hs0]; split <;> rfl
-      have hs0dim : s0.dim = s.dim := by rw [← hs0]; split <;> rfl
-      have hs0ml : (level : Int) ≤ s0.maxLevel ∧ s.maxLevel ≤ s0.maxLevel := by
-        rw [← hs0]; split <;> simp <;> omega
-      have hlvl : (0 : Int) ≤ s0.maxLevel := by have := hs0ml.1; omega
-      have hresS : ∀ j, s0.nodes.contains j = s.nodes.contains j := by intro j; rw [hs0n]
-      have hdelS : ∀ j, isDeleted s0 j = isDeleted s j := by intro j; simp [isDeleted, hs0d]
-      split at h
-      · next hcond =>
-        simp only [Bool.and_eq_true, beq_iff_eq] at hcond
-        have hc0 : s.nodes.count = 0 := by rw [← hs0n]; exact hcond.2
-        simp only [Except.ok.injEq, Prod.mk.injEq] at h
-        obtain ⟨rfl, rfl⟩ := h
-        have hxin : ({ s0 with entry := x, nodes := s0.nodes.set x (Node.new v' level) } : State V).nodes.contains x = true := by
-          simp [contains_set]
-        refine ⟨⟨?_, fun _ => hxin, fun _ => hlvl, ?_⟩, hs0dim, ?_, fun hh => absurd hc0 hh, hdelS⟩
-        · intro i hi
-          simp only [contains_set, Bool.or_eq_true, decide_eq_true_eq]
-          exact Or.inr (by rw [hresS]; exact hinv.del_res i (by rw [← hdelS]; exact hi))
-        · intro h0
-          have := (count_eq_zero_iff _).1 h0 x
-          rw [hxin] at this; cases this
-        · intro j hj
-          simp only [contains_set, Bool.or_eq_true, decide_eq_true_eq, hresS] at hj
-          rcases hj with hj | hj
-          · exact Or.inr hj.symm
-          · exact Or.inl hj
-      · next hcond =>
-        have hcnt : s.nodes.count ≠ 0 := by
-          intro h0
-          apply hcond
-          simp only [Bool.and_eq_true, beq_iff_eq]
-          exact ⟨by rw [hs0e]; exact hinv.empty_entry h0, by rw [hs0n]; exact h0⟩
-        generalize ht0 : ({ s0 with nodes := s0.nodes.set x (Node.new v' level) } : State V) = t0 at h
-        have hcont : ∀ j, t0.nodes.contains j = (decide (x = j) || s.nodes.contains j) := by
-          intro j; rw [← ht0]; simp only [contains_set, hresS]
-        have hsyncT : t0.nodes.get? x = some (Node.new v' level) := by
-          rw [← ht0]; simp [IdMap.get?_set]
-        split at h
-        · cases h
-        · next s2 nx2 hins =>
-          simp only [Except.ok.injEq, Prod.mk.injEq] at h
-          obtain ⟨rfl, rfl⟩ := h
-          simp only [insertNode] at hins
-          split at hins
-          · cases hins
-          · split at hins
-            · cases hins
-            · next curr cd hg =>
-              have hsh := (insertLayers_shape m x _ _ t0 s2 _ nx2 curr hsyncT hins).1
-              have hx2 : s2.nodes.contains x = true := by rw [hsh.contains, hcont]; simp
-              refine ⟨⟨?_, ?_, ?_, ?_⟩, ?_, ?_, ?_, ?_⟩
-              · intro i hi
-                rw [hsh.isDeleted] at hi
-                have hi' : isDeleted s i = true := by rw [← hdelS, ← hi, ← ht0]; rfl
-                rw [hsh.contains, hcont]; simp [hinv.del_res i hi']
-              · intro _
-                rw [hsh.contains, hsh.entry, hcont]
-                have : t0.entry = s.entry := by rw [← ht0]; exact hs0e
-                rw [this]; simp [hinv.entry_res hcnt]
-              · intro _
-                rw [hsh.maxLevel, ← ht0]; exact hlvl
-              · intro h0
-                have := (count_eq_zero_iff _).1 h0 x
-                rw [hx2] at this; cases this
-              · rw [hsh.dim, ← ht0]; exact hs0dim
-              · intro j hj
-                rw [hsh.contains, hcont] at hj
-                simp only [Bool.or_eq_true, decide_eq_true_eq] at hj
-                rcases hj with hj | hj
-                · exact Or.inr hj.symm
-                · exact Or.inl hj
-              · intro _
-                rw [hsh.entry, ← ht0]; exact hs0e
-              · intro j
-                rw [hsh.isDeleted, ← hdelS, ← ht0]; rfl
+  · next hcond =>
+    simp only [Bool.and_eq_true, beq_iff_eq] at hcond
+    have hc0 : s.nodes.count = 0 := by rw [← hs0n]; exact hcond.2
+    simp only [Except.ok.injEq] at h
+    subst h
+    have hxin : ({ s0 with entry := x, nodes := s0.nodes.set x (Node.new v' level) } : State V).nodes.contains x = true := by
+      simp [contains_set]
+    refine ⟨⟨?_, fun _ => hxin, fun _ => hlvl, ?_⟩, hs0dim, ?_, hdelS⟩
+    · intro i hi
+      simp only [contains_set, Bool.or_eq_true, decide_eq_true_eq]
+      exact Or.inr (by rw [hresS]; exact hinv.del_res i (by rw [← hdelS]; exact hi))
+    · intro h0
+      have := (count_eq_zero_iff _).1 h0 x
+      rw [hxin] at this; cases this
+    · intro j hj
+      simp only [contains_set, Bool.or_eq_true, decide_eq_true_eq, hresS] at hj
+      rcases hj with hj | hj
+      · exact Or.inr hj.symm
+      · exact Or.inl hj
+  · next hcond =>
+    have hcnt : s.nodes.count ≠ 0 := by
+      intro h0
+      apply hcond
+      simp only [Bool.and_eq_true, beq_iff_eq]
+      exact ⟨by rw [hs0e]; exact hinv.empty_entry h0, by rw [hs0n]; exact h0⟩
+    generalize ht0 : ({ s0 with nodes := s0.nodes.set x (Node.new v' level) } : State V) = t0 at h
+    have hcont : ∀ j, t0.nodes.contains j = (decide (x = j) || s.nodes.contains j) := by
+      intro j; rw [← ht0]; simp only [contains_set, hresS]
+    have hsyncT : t0.nodes.get? x = some (Node.new v' level) := by
+      rw [← ht0]; simp [IdMap.get?_set]
+    split at h
+    · cases h
+    · next s2 nx2 hins =>
+      simp only [Except.ok.injEq] at h
+      subst h
+      simp only [insertNode] at hins
+      split at hins
+      · cases hins
+      · split at hins
+        · cases hins
+        · next curr cd hg =>
+          have hsh := (insertLayers_shape m x _ _ t0 s2 _ nx2 curr hsyncT hins).1
+          have hx2 : s2.nodes.contains x = true := by rw [hsh.contains, hcont]; simp
+          refine ⟨⟨?_, ?_, ?_, ?_⟩, ?_, ?_, ?_⟩
+          · intro i hi
+            rw [hsh.isDeleted] at hi
+            have hi' : isDeleted s i = true := by rw [← hdelS, ← hi, ← ht0]; rfl
+            rw [hsh.contains, hcont]; simp [hinv.del_res i hi']
+          · intro _
+            rw [hsh.contains, hsh.entry, hcont]
+            have : t0.entry = s.entry := by rw [← ht0]; exact hs0e
+            rw [this]; simp [hinv.entry_res hcnt]
+          · intro _
+            rw [hsh.maxLevel, ← ht0]; exact hlvl
+          · intro h0
+            have := (count_eq_zero_iff _).1 h0 x
+            rw [hx2] at this; cases this
+          · rw [hsh.dim, ← ht0]; exact hs0dim
+          · intro j hj
+            rw [hsh.contains, hcont] at hj
+            simp only [Bool.or_eq_true, decide_eq_true_eq] at hj
+            rcases hj with hj | hj
+            · exact Or.inr hj.symm
+            · exact Or.inl hj
+          · intro j
+            rw [hsh.isDeleted, ← hdelS, ← ht0]; rfl
+
 
 theorem remove_winv (s : State V) (id : Id) (hinv : WInv s) :
     WInv (remove s id).1 ∧ (remove s id).1.nodes = s.nodes ∧ (remove s id).1.dim = s.dim ∧
@@ -236,43 +219,89 @@ theorem flush_winv (s : State V) (e : Id) (hinv : WInv s) (he : e ∈ flushChoic
       rw [hentry', hspec.1 hde]
     · intro j hj; rw [hdel'] at hj; cases hj
 
+theorem add_winv (s s' : State V) (x : Id) (v : V) (level : Nat) (pick : Id) (e : Option Err)
+    (hinv : WInv s) (hfresh : s.nodes.contains x = false)
+    (hpick : s.deleted.contains s.entry = true → pick ∈ flushChoices s)
+    (h : add m s x v level pick = .ok (s', e)) :
+    WInv s' ∧ s'.dim = s.dim ∧
+    (∀ j, s'.nodes.contains j = true → s.nodes.contains j = true ∨ j = x) := by
+  have hxdel : s.deleted.contains x = false := by
+    cases hc : s.deleted.contains x with
+    | false => rfl
+    | true => have := hinv.del_res x hc; rw [hfresh] at this; cases this
+  simp only [add, addWith, registerFirst, hxdel, Bool.and_false, Bool.false_eq_true, if_false] at h
+  split at h
+  · simp only [Except.ok.injEq, Prod.mk.injEq] at h
+    obtain ⟨rfl, rfl⟩ := h
+    exact ⟨hinv, rfl, fun j hj => Or.inl hj⟩
+  · split at h
+    · simp only [Except.ok.injEq, Prod.mk.injEq] at h
+      obtain ⟨rfl, rfl⟩ := h
+      exact ⟨hinv, rfl, fun j hj => Or.inl hj⟩
+    · next v' hpre =>
+      generalize hsf : (if s.deleted.contains s.entry = true then flushTo s pick else s) = sf at h
+      have hF : WInv sf ∧ sf.dim = s.dim ∧ (∀ j, sf.nodes.contains j = true → s.nodes.contains j = true) := by
+        rw [← hsf]
+        split
+        · next hd =>
+          obtain ⟨a, b, c, _⟩ := flush_winv s pick hinv (hpick hd)
+          exact ⟨a, b, c⟩
+        · exact ⟨hinv, rfl, fun _ hh => hh⟩
+      obtain ⟨hwF, hdF, hsubF⟩ := hF
+      split at h
+      · cases h
+      · next s2 hlink =>
+        simp only [Except.ok.injEq, Prod.mk.injEq] at h
+        obtain ⟨rfl, rfl⟩ := h
+        obtain ⟨hw2, hd2, hsub2, _⟩ := addLinked_winv m sf s2 x v' level hwF hlink
+        refine ⟨hw2, hd2.trans hdF, ?_⟩
+        intro j hj
+        rcases hsub2 j hj with h1 | h1
+        · exact Or.inl (hsubF j h1)
+        · exact Or.inr h1
+
 /-- the weak invariant along every history with fresh ids and allowed flush picks -/
 theorem run_winv :
     ∀ (ops : List (Op V)) (s0 s : State V),
       WInv s0 →
       (∀ i ∈ addedIds ops, s0.nodes.contains i = false) → (addedIds ops).Nodup →
-      validPicks m s0 ops = true → entryLive m s0 ops = true →
+      validPicks m s0 ops = true →
       run m s0 ops = .ok s →
-      WInv s ∧ s.dim = s0.dim ∧ isDeleted s s.entry = false := by
+      WInv s ∧ s.dim = s0.dim := by
   intro ops
   induction ops with
   | nil =>
-    intro s0 s hinv _ _ _ he hrun
+    intro s0 s hinv _ _ _ hrun
     simp only [run, Except.ok.injEq] at hrun; subst hrun
-    exact ⟨hinv, rfl, entryLive_nil m _ he⟩
+    exact ⟨hinv, rfl⟩
   | cons op rest ih =>
-    intro s0 s hinv hfresh hnd hv he hrun
-    simp only [validPicks, entryLive, along_cons, Bool.and_eq_true] at hv he
+    intro s0 s hinv hfresh hnd hv hrun
+    simp only [validPicks, along_cons, Bool.and_eq_true] at hv
     simp only [run] at hrun
     cases hstep : step m s0 op with
     | error e => rw [hstep] at hrun; cases hrun
     | ok s1 =>
-      rw [hstep] at hrun hv he
-      simp only at hrun hv he
+      rw [hstep] at hrun hv
+      simp only at hrun hv
       have hrestsub : ∀ i ∈ addedIds rest, i ∈ addedIds (op :: rest) := by
         intro i hi
         cases op <;> simp_all [addedIds, Flat.addedIds, Op.toFlat]
       have key : WInv s1 ∧ s1.dim = s0.dim ∧
           (∀ i ∈ addedIds rest, s1.nodes.contains i = false) ∧ (addedIds rest).Nodup := by
         cases op with
-        | add x v level =>
+        | add x v level pk =>
           simp only [step] at hstep
           split at hstep
           · next s' e hadd =>
             simp only [Except.ok.injEq] at hstep; subst hstep
             rw [addedIds_cons_add] at hnd hfresh
-            obtain ⟨hw, hd, hc, _, _⟩ := add_winv m s0 s' x v level s0.entry e hinv
-              (hfresh x (by simp)) hadd
+            obtain ⟨hw, hd, hc⟩ := add_winv m s0 s' x v level pk e hinv
+              (hfresh x (by simp))
+              (by
+                intro hd
+                have := hv.1
+                simp only [addFlushes, hd, Bool.or_true, Bool.not_true, Bool.false_or] at this
+                simpa using this) hadd
             refine ⟨hw, hd, ?_, (List.nodup_cons.1 hnd).2⟩
             intro i hi
             cases hci : s'.nodes.contains i with
@@ -298,8 +327,8 @@ theorem run_winv :
             have := hsub i hci
             rw [hfresh i (hrestsub i hi)] at this; cases this
       obtain ⟨hw1, hd1, hf1, hnd1⟩ := key
-      obtain ⟨r1, r2, r3⟩ := ih s1 s hw1 hf1 hnd1 hv.2 he.2 hrun
-      exact ⟨r1, r2.trans hd1, r3⟩
+      obtain ⟨r1, r2⟩ := ih s1 s hw1 hf1 hnd1 hv.2 hrun
+      exact ⟨r1, r2.trans hd1⟩
 
 end
 end Comet.HNSW
